@@ -95,6 +95,10 @@ class Calls:
 
     # -- package functions ------------------------------------------------------------------
     def call_package(self, ex, fi, args, kwargs):
+        if fi.is_generator() and 'contextmanager' not in fi.decorators:
+            g = L.OpaqueV(L.OK['generator'], ex.fresh_int('gen'))
+            ex.event('generator_created', fi.key, tuple(args), dict(kwargs), g)
+            return g
         c = self.engine.contracts.get(fi.key)
         if c is not None and not (ex.task.finfo is fi):
             return c.apply(ex, args, kwargs)
